@@ -52,6 +52,8 @@ class Machine:
     def cond(self, name):
         if name.startswith("flag:"):
             return bool(self.flags.get(name[5:], False))
+        if name.startswith("notflag:"):
+            return not self.flags.get(name[8:], False)
         tab = self.tables.get(name)
         if tab is None:
             return self.default
@@ -231,6 +233,7 @@ class Machine:
                     pass
             return out
 
+        items = [tuple(x) for x in items]  # (JSON round trips turn the pairs into lists)
         if k == "choose":
             en = enabled_of(items)
             if not en:
